@@ -8,6 +8,7 @@
 import MF.Proofs.QuerySound
 import MF.Proofs.ExprPosC05
 import MF.Proofs.LexTokLen
+import MF.Spec.QueryPrintToks
 namespace MF.Query
 open MF MF.Expr
 
@@ -436,6 +437,479 @@ theorem tryParseLimit_over {len : Nat} {ts rest : List Token} {l : Limit} (hT : 
     · cases hq
       exact ⟨[t, tc], rfl, ⟨by simp, rfl, by simp [endLimit, lastEnd, hce]⟩, by intro o ho; cases ho⟩
   · cases h
+
+end MF.Query
+
+namespace MF.Query
+open MF MF.Expr
+
+/-! ## the comma loops, GROUP BY, ORDER BY -/
+
+/-- where the run of a (possibly empty) list of nodes ends: at the end of its last element -/
+def LastIs {α : Type} (es : List α) (endf : α → Nat) (pre : List Token) : Prop :=
+  match es.getLast? with
+  | none => pre = []
+  | some l => pre ≠ [] ∧ lastEnd pre = endf l
+
+/-- every element lies over a sub-run -/
+def EachOver {α : Type} (es : List α) (posf endf : α → Nat) (pre : List Token) : Prop :=
+  ∀ e ∈ es, ∃ a run b, pre = a ++ run ++ b ∧ Over (posf e) (endf e) run
+
+theorem lastIs_cons {α : Type} {x : α} {xs : List α} {endf : α → Nat} {c px pre : List Token}
+    (hx : px ≠ []) (hxe : lastEnd px = endf x) (h : LastIs xs endf pre) : LastIs (x :: xs) endf (c ++ px ++ pre) := by
+  unfold LastIs at h ⊢
+  cases xs with
+  | nil =>
+    simp only [List.getLast?_nil] at h
+    subst h
+    simp only [List.getLast?_singleton, List.append_nil]
+    exact ⟨by simp [hx], by rw [lastEnd_append hx]; exact hxe⟩
+  | cons y ys =>
+    rw [List.getLast?_cons_cons]
+    cases hl : (y :: ys).getLast? with
+    | none => simp at hl
+    | some l =>
+      rw [hl] at h
+      exact ⟨by simp [h.1], by rw [lastEnd_append h.1]; exact h.2⟩
+
+theorem eachOver_cons {α : Type} {x : α} {xs : List α} {posf endf : α → Nat} {c px pre : List Token}
+    (hx : Over (posf x) (endf x) px) (h : EachOver xs posf endf pre) : EachOver (x :: xs) posf endf (c ++ px ++ pre) := by
+  intro e he
+  rcases List.mem_cons.1 he with rfl | he
+  · exact ⟨c, px, pre, rfl, hx⟩
+  · obtain ⟨a, run, b, hpre, ho⟩ := h e he
+    exact ⟨c ++ px ++ a, run, b, by rw [hpre]; simp, ho⟩
+
+theorem exprListLoop_over {len : Nat} : ∀ (f : Nat) {ts rest : List Token} {es : List PExpr}, TokensOK len ts →
+    exprListLoop f ts = .ok (es, rest) →
+    ∃ pre, ts = pre ++ rest ∧ LastIs es endP pre ∧ EachOver es posP endP pre
+  | 0, _, _, _, _, h => by cases h
+  | f + 1, ts, rest, es, hT, h => by
+    unfold exprListLoop at h
+    split at h
+    · rename_i hc
+      obtain ⟨c, tl, hts, _⟩ := qcur_ne_eof hc (by decide)
+      obtain ⟨p, hp, h2⟩ := Res.bind_eq_ok.1 h
+      obtain ⟨e, r⟩ := p
+      obtain ⟨q, hq, h3⟩ := Res.bind_eq_ok.1 h2
+      obtain ⟨es', r'⟩ := q
+      cases h3
+      rw [hts] at hp hT
+      try simp only [List.tail_cons] at hp
+      obtain ⟨pe, e1, hov⟩ := parsePExpr_over (hT.suffix (pre := [c])) hp
+      have hT2 : TokensOK len r := by
+        have := hT.suffix (pre := [c]); rw [e1] at this; exact this.suffix
+      obtain ⟨pre', e2, hl, he⟩ := exprListLoop_over f hT2 hq
+      try simp only at e2
+      refine ⟨[c] ++ pe ++ pre', by rw [hts, e1, e2]; simp, lastIs_cons hov.1 hov.2.2.symm hl, eachOver_cons hov he⟩
+    · cases h
+      exact ⟨[], rfl, rfl, by intro e he; cases he⟩
+
+theorem lastEnd_first_more {α : Type} {x : α} {xs : List α} {endf : α → Nat} {px pre : List Token}
+    (hx : px ≠ []) (hxe : lastEnd px = endf x) (h : LastIs xs endf pre) :
+    px ++ pre ≠ [] ∧ lastEnd (px ++ pre) = endf ((x :: xs).getLast?.getD x) := by
+  have := lastIs_cons (c := []) hx hxe h
+  unfold LastIs at this
+  cases hl : (x :: xs).getLast? with
+  | none => simp at hl
+  | some l => rw [hl] at this; simpa using this
+
+theorem tryParseGroupBy_over {len f : Nat} {ts rest : List Token} {g : GroupBy} (hT : TokensOK len ts)
+    (h : tryParseGroupBy f ts = .ok (some g, rest)) :
+    ∃ pre, ts = pre ++ rest ∧ Over g.group (endGroupBy g) pre ∧
+      ∃ kw body, pre = kw ++ body ∧ kw ≠ [] ∧ EachOver (g.first :: g.more) posP endP body := by
+  unfold tryParseGroupBy at h
+  split at h
+  · rename_i hc
+    split at h
+    · rename_i hb
+      obtain ⟨t, tl, hts, _⟩ := qcur_ne_eof hc (by decide)
+      rw [hts] at hb h hT
+      try simp only [List.tail_cons] at hb h
+      obtain ⟨b, tl2, hts2, _⟩ := qcur_ne_eof hb (by decide)
+      rw [hts2] at h hT
+      try simp only [List.tail_cons] at h
+      obtain ⟨p, hp, h2⟩ := Res.bind_eq_ok.1 h
+      obtain ⟨e, r⟩ := p
+      obtain ⟨q, hq, h3⟩ := Res.bind_eq_ok.1 h2
+      obtain ⟨es, r'⟩ := q
+      cases h3
+      obtain ⟨pe, e1, hov⟩ := parsePExpr_over (hT.suffix (pre := [t, b])) hp
+      have hT2 : TokensOK len r := by
+        have := hT.suffix (pre := [t, b]); rw [e1] at this; exact this.suffix
+      obtain ⟨pl, e2, hl, he⟩ := exprListLoop_over f hT2 hq
+      try simp only at e2
+      obtain ⟨hne, hle⟩ := lastEnd_first_more (x := e) hov.1 hov.2.2.symm hl
+      refine ⟨[t, b] ++ (pe ++ pl), by rw [hts, hts2, e1, e2]; simp, ⟨by simp, rfl, ?_⟩,
+        [t, b], pe ++ pl, rfl, by simp, ?_⟩
+      · rw [lastEnd_append hne, hle]; rfl
+      · have := eachOver_cons (c := []) hov he
+        simpa using this
+    · cases h
+  · cases h
+
+theorem tryParseDirection_over {len : Nat} {ts : List Token} (hT : TokensOK len ts) :
+    (tryParseDirection ts).1 = none ∧ (tryParseDirection ts).2 = ts ∨
+    ∃ t d, ts = t :: (tryParseDirection ts).2 ∧ (tryParseDirection ts).1 = some (d, t.pos) ∧ t.end = t.pos + d.len := by
+  unfold tryParseDirection
+  split
+  · rename_i hc
+    obtain ⟨t, tl, rfl, ht⟩ := qcur_ne_eof hc (by decide)
+    exact Or.inr ⟨t, .asc, rfl, rfl, asc_len hT.head ht⟩
+  · rename_i hc
+    obtain ⟨t, tl, rfl, ht⟩ := qcur_ne_eof hc (by decide)
+    exact Or.inr ⟨t, .desc, rfl, rfl, desc_len hT.head ht⟩
+  · exact Or.inl ⟨rfl, rfl⟩
+
+theorem parseOrderByItem_over {len f : Nat} {ts rest : List Token} {i : OrderByItem} (hT : TokensOK len ts)
+    (h : parseOrderByItem f ts = .ok (i, rest)) : ∃ pre, ts = pre ++ rest ∧ Over (posP i.e) (endOrderItem i) pre := by
+  unfold parseOrderByItem at h
+  obtain ⟨p, hp, h2⟩ := Res.bind_eq_ok.1 h
+  obtain ⟨e, r⟩ := p
+  obtain ⟨pe, e1, hov⟩ := parsePExpr_over hT hp
+  try simp only at h2
+  split at h2
+  · cases h2
+  · have hT2 : TokensOK len r := by rw [e1] at hT; exact hT.suffix
+    cases h2
+    rcases tryParseDirection_over hT2 with ⟨h1, h3⟩ | ⟨t, d, h1, h3, h4⟩
+    · refine ⟨pe, by rw [e1, h3], ?_⟩
+      simpa [endOrderItem, h1] using hov
+    · refine ⟨pe ++ [t], by rw [e1]; simp; exact h1, by simp, ?_, ?_⟩
+      · rw [firstPos_append hov.1]; exact hov.2.1
+      · rw [lastEnd_append (by simp)]
+        simp [endOrderItem, h3, lastEnd, h4]
+
+theorem orderListLoop_over {len : Nat} : ∀ (f : Nat) {ts rest : List Token} {es : List OrderByItem}, TokensOK len ts →
+    orderListLoop f ts = .ok (es, rest) →
+    ∃ pre, ts = pre ++ rest ∧ LastIs es endOrderItem pre ∧ EachOver es (fun i => posP i.e) endOrderItem pre
+  | 0, _, _, _, _, h => by cases h
+  | f + 1, ts, rest, es, hT, h => by
+    unfold orderListLoop at h
+    split at h
+    · rename_i hc
+      obtain ⟨c, tl, hts, _⟩ := qcur_ne_eof hc (by decide)
+      obtain ⟨p, hp, h2⟩ := Res.bind_eq_ok.1 h
+      obtain ⟨e, r⟩ := p
+      obtain ⟨q, hq, h3⟩ := Res.bind_eq_ok.1 h2
+      obtain ⟨es', r'⟩ := q
+      cases h3
+      rw [hts] at hp hT
+      try simp only [List.tail_cons] at hp
+      obtain ⟨pe, e1, hov⟩ := parseOrderByItem_over (hT.suffix (pre := [c])) hp
+      have hT2 : TokensOK len r := by
+        have := hT.suffix (pre := [c]); rw [e1] at this; exact this.suffix
+      obtain ⟨pre', e2, hl, he⟩ := orderListLoop_over f hT2 hq
+      try simp only at e2
+      refine ⟨[c] ++ pe ++ pre', by rw [hts, e1, e2]; simp,
+        lastIs_cons (endf := endOrderItem) hov.1 hov.2.2.symm hl,
+        eachOver_cons (posf := fun i => posP i.e) (endf := endOrderItem) hov he⟩
+    · cases h
+      exact ⟨[], rfl, rfl, by intro e he; cases he⟩
+
+theorem tryParseOrderBy_over {len f : Nat} {ts rest : List Token} {o : OrderBy} (hT : TokensOK len ts)
+    (h : tryParseOrderBy f ts = .ok (some o, rest)) :
+    ∃ pre, ts = pre ++ rest ∧ Over o.order (endOrderBy o) pre ∧
+      ∃ kw body, pre = kw ++ body ∧ kw ≠ [] ∧ EachOver (o.first :: o.more) (fun i => posP i.e) endOrderItem body := by
+  unfold tryParseOrderBy at h
+  split at h
+  · rename_i hc
+    split at h
+    · rename_i hb
+      obtain ⟨t, tl, hts, _⟩ := qcur_ne_eof hc (by decide)
+      rw [hts] at hb h hT
+      try simp only [List.tail_cons] at hb h
+      obtain ⟨b, tl2, hts2, _⟩ := qcur_ne_eof hb (by decide)
+      rw [hts2] at h hT
+      try simp only [List.tail_cons] at h
+      obtain ⟨p, hp, h2⟩ := Res.bind_eq_ok.1 h
+      obtain ⟨e, r⟩ := p
+      obtain ⟨q, hq, h3⟩ := Res.bind_eq_ok.1 h2
+      obtain ⟨es, r'⟩ := q
+      cases h3
+      obtain ⟨pe, e1, hov⟩ := parseOrderByItem_over (hT.suffix (pre := [t, b])) hp
+      have hT2 : TokensOK len r := by
+        have := hT.suffix (pre := [t, b]); rw [e1] at this; exact this.suffix
+      obtain ⟨pl, e2, hl, he⟩ := orderListLoop_over f hT2 hq
+      try simp only at e2
+      obtain ⟨hne, hle⟩ := lastEnd_first_more (x := e) (endf := endOrderItem) hov.1 hov.2.2.symm hl
+      refine ⟨[t, b] ++ (pe ++ pl), by rw [hts, hts2, e1, e2]; simp, ⟨by simp, rfl, ?_⟩,
+        [t, b], pe ++ pl, rfl, by simp, ?_⟩
+      · rw [lastEnd_append hne, hle]; rfl
+      · have := eachOver_cons (c := []) (posf := fun i : OrderByItem => posP i.e) (endf := endOrderItem) hov he
+        simpa using this
+    · cases h
+  · cases h
+
+/-- the loop of the select list: the further items with their commas (`pre`), then the trailing comma if one was
+consumed (`ptr`) -/
+theorem resultsLoop_over {len : Nat} : ∀ (f : Nat) {ts rest : List Token} {is : List SelectItem} {tr : Bool},
+    TokensOK len ts → resultsLoop f ts = .ok ((is, tr), rest) →
+    ∃ pre ptr, ts = pre ++ ptr ++ rest ∧ (tr = false → ptr = []) ∧ (tr = true → ∃ tc, ptr = [tc]) ∧
+      LastIs is endItem pre ∧ EachOver is posItem endItem pre
+  | 0, _, _, _, _, _, h => by cases h
+  | f + 1, ts, rest, is, tr, hT, h => by
+    unfold resultsLoop at h
+    split at h
+    · rename_i hc
+      obtain ⟨c, tl, hts, _⟩ := qcur_ne_eof hc (by decide)
+      have trail : (.ok (([], true), ts.tail) : QR (List SelectItem × Bool)) = .ok ((is, tr), rest) →
+          ∃ pre ptr, ts = pre ++ ptr ++ rest ∧ (tr = false → ptr = []) ∧ (tr = true → ∃ tc, ptr = [tc]) ∧
+            LastIs is endItem pre ∧ EachOver is posItem endItem pre := by
+        intro h'
+        cases h'
+        exact ⟨[], [c], (by rw [hts]; simp), (by intro h0; cases h0), fun _ => ⟨c, rfl⟩, rfl, (by intro e he; cases he)⟩
+      split at h
+      · exact trail h
+      · exact trail h
+      · exact trail h
+      · exact trail h
+      · obtain ⟨p, hp, h2⟩ := Res.bind_eq_ok.1 h
+        obtain ⟨i, r⟩ := p
+        obtain ⟨q, hq, h3⟩ := Res.bind_eq_ok.1 h2
+        obtain ⟨⟨is', tr'⟩, r'⟩ := q
+        cases h3
+        rw [hts] at hp hT
+        try simp only [List.tail_cons] at hp
+        obtain ⟨pi, e1, hov⟩ := parseSelectItem_over (hT.suffix (pre := [c])) hp
+        have hT2 : TokensOK len r := by
+          have := hT.suffix (pre := [c]); rw [e1] at this; exact this.suffix
+        obtain ⟨pre', ptr, e2, h4, h5, hl, he⟩ := resultsLoop_over f hT2 hq
+        try simp only at e2
+        exact ⟨[c] ++ pi ++ pre', ptr, by rw [hts, e1, e2]; simp, h4, h5,
+          lastIs_cons hov.1 hov.2.2.symm hl, eachOver_cons hov he⟩
+    · cases h
+      exact ⟨[], [], rfl, fun _ => rfl, (by intro h0; cases h0), rfl, (by intro e he; cases he)⟩
+
+end MF.Query
+
+namespace MF.Query
+open MF MF.Expr
+
+/-! ## SELECT, the query expression, the statement -/
+
+/-- an optional clause: nothing consumed, or a node lying over the consumed run -/
+def OptOver {α : Type} (x : Option α) (posf endf : α → Nat) (pre : List Token) : Prop :=
+  match x with
+  | none => pre = []
+  | some v => Over (posf v) (endf v) pre
+
+theorem optFrom_over {f : Nat} {ts rest : List Token} {x : Option From} (h : tryParseFrom f ts = .ok (x, rest)) :
+    ∃ pre, ts = pre ++ rest ∧ OptOver x (·.from_) endFrom pre := by
+  cases x with
+  | none => exact ⟨[], by rw [((tryParseFrom_sound h).2.1 rfl).1]; rfl, rfl⟩
+  | some v => exact tryParseFrom_over h
+
+theorem optWhere_over {len f : Nat} {ts rest : List Token} {x : Option Where} (hT : TokensOK len ts)
+    (h : tryParseWhere f ts = .ok (x, rest)) : ∃ pre, ts = pre ++ rest ∧ OptOver x (·.where_) endWhere pre := by
+  cases x with
+  | none => exact ⟨[], by rw [(tryParseWhere_sound h).2.2.1 rfl]; rfl, rfl⟩
+  | some v => exact tryParseWhere_over hT h
+
+theorem optGroup_over {len f : Nat} {ts rest : List Token} {x : Option GroupBy} (hT : TokensOK len ts)
+    (h : tryParseGroupBy f ts = .ok (x, rest)) : ∃ pre, ts = pre ++ rest ∧ OptOver x (·.group) endGroupBy pre := by
+  cases x with
+  | none => exact ⟨[], by rw [(tryParseGroupBy_sound h).2.2.1 rfl]; rfl, rfl⟩
+  | some v => obtain ⟨pre, e, ho, _⟩ := tryParseGroupBy_over hT h; exact ⟨pre, e, ho⟩
+
+theorem optHaving_over {len f : Nat} {ts rest : List Token} {x : Option Having} (hT : TokensOK len ts)
+    (h : tryParseHaving f ts = .ok (x, rest)) : ∃ pre, ts = pre ++ rest ∧ OptOver x (·.having) endHaving pre := by
+  cases x with
+  | none => exact ⟨[], by rw [(tryParseHaving_sound h).2.2.1 rfl]; rfl, rfl⟩
+  | some v => exact tryParseHaving_over hT h
+
+theorem optOrder_over {len f : Nat} {ts rest : List Token} {x : Option OrderBy} (hT : TokensOK len ts)
+    (h : tryParseOrderBy f ts = .ok (x, rest)) : ∃ pre, ts = pre ++ rest ∧ OptOver x (·.order) endOrderBy pre := by
+  cases x with
+  | none => exact ⟨[], by rw [(tryParseOrderBy_sound h).2.2.1 rfl]; rfl, rfl⟩
+  | some v => obtain ⟨pre, e, ho, _⟩ := tryParseOrderBy_over hT h; exact ⟨pre, e, ho⟩
+
+theorem optLimit_over {len : Nat} {ts rest : List Token} {x : Option Limit} (hT : TokensOK len ts)
+    (h : tryParseLimit ts = .ok (x, rest)) : ∃ pre, ts = pre ++ rest ∧ OptOver x (·.limit) endLimit pre := by
+  cases x with
+  | none => exact ⟨[], by rw [(tryParseLimit_sound h).2.1 rfl]; rfl, rfl⟩
+  | some v => obtain ⟨pre, e, ho, _⟩ := tryParseLimit_over hT h; exact ⟨pre, e, ho⟩
+
+def optEnd {α : Type} (x : Option α) (endf : α → Nat) (e0 : Nat) : Nat :=
+  match x with
+  | none => e0
+  | some v => endf v
+
+/-- a run `base` ending at `e0`, followed by optional clause runs: the whole ends where the last present clause ends -/
+theorem lastEnd_opt {α : Type} {x : Option α} {posf endf : α → Nat} {base px : List Token} {e0 : Nat}
+    (hb : base ≠ []) (he : lastEnd base = e0) (hx : OptOver x posf endf px) :
+    base ++ px ≠ [] ∧ lastEnd (base ++ px) = optEnd x endf e0 := by
+  cases x with
+  | none => simp only [OptOver] at hx; subst hx; simpa using ⟨hb, he⟩
+  | some v => simp only [OptOver] at hx; exact ⟨by simp [hb], by rw [lastEnd_append hx.1]; exact hx.2.2.symm⟩
+
+/-- `parseSelect`: the Select lies over `run`; the only consumed token that may lie OUTSIDE its range is a trailing comma
+that ends the whole SELECT (no FROM / WHERE / GROUP BY / HAVING follows): `End()` is then the end of the last item -/
+theorem parseSelect_over {len f : Nat} {ts rest : List Token} {s : Select} (hT : TokensOK len ts)
+    (h : parseSelect f ts = .ok (s, rest)) :
+    ∃ run tail, ts = run ++ tail ++ rest ∧ Over s.select (endSelect s) run ∧
+      (tail = [] ∨ ∃ tc, tail = [tc] ∧ s.trailing = true ∧ s.from_ = none ∧ s.where_ = none ∧ s.groupBy = none ∧
+        s.having = none) := by
+  obtain ⟨_, _, htrail⟩ := parseSelect_sound h
+  unfold parseSelect at h
+  split at h
+  · rename_i hc
+    obtain ⟨tsel, tl, hts, _⟩ := qcur_ne_eof hc (by decide)
+    try simp only at h
+    split at h
+    · cases h
+    · obtain ⟨pa, hpa, _⟩ := tryParseAllOrDistinct_sound ts.tail
+      obtain ⟨i, hi, h2⟩ := Res.bind_eq_ok.1 h
+      obtain ⟨i, r1⟩ := i
+      obtain ⟨l, hl, h3⟩ := Res.bind_eq_ok.1 h2
+      obtain ⟨⟨is, tr⟩, r2⟩ := l
+      obtain ⟨fr, hfr, h4⟩ := Res.bind_eq_ok.1 h3
+      obtain ⟨fr, r3⟩ := fr
+      obtain ⟨w, hw, h5⟩ := Res.bind_eq_ok.1 h4
+      obtain ⟨w, r4⟩ := w
+      obtain ⟨g, hg, h6⟩ := Res.bind_eq_ok.1 h5
+      obtain ⟨g, r5⟩ := g
+      obtain ⟨hv, hh, h7⟩ := Res.bind_eq_ok.1 h6
+      obtain ⟨hv, r6⟩ := hv
+      cases h7
+      try simp only at hi hl hfr hw hg hh
+      have htl : ts.tail = tl := by rw [hts]; rfl
+      have hT0 : TokensOK len ts.tail := by rw [hts] at hT; rw [htl]; exact hT.suffix (pre := [tsel])
+      have hTA : TokensOK len (tryParseAllOrDistinct ts.tail).2 := by rw [hpa] at hT0; exact hT0.suffix
+      obtain ⟨pi, e1, hoi⟩ := parseSelectItem_over hTA hi
+      have hT1 : TokensOK len r1 := by rw [e1] at hTA; exact hTA.suffix
+      obtain ⟨pl, ptr, e2, htr0, htr1, hlast, _⟩ := resultsLoop_over f hT1 hl
+      have hT2 : TokensOK len r2 := by rw [e2] at hT1; exact hT1.suffix
+      obtain ⟨pf, e3, hof⟩ := optFrom_over hfr
+      have hT3 : TokensOK len r3 := by rw [e3] at hT2; exact hT2.suffix
+      obtain ⟨pw, e4, how⟩ := optWhere_over hT3 hw
+      have hT4 : TokensOK len r4 := by rw [e4] at hT3; exact hT3.suffix
+      obtain ⟨pg, e5, hog⟩ := optGroup_over hT4 hg
+      have hT5 : TokensOK len r5 := by rw [e5] at hT4; exact hT4.suffix
+      obtain ⟨ph, e6, hoh⟩ := optHaving_over hT5 hh
+      -- the items
+      obtain ⟨hbne, hbe⟩ := lastEnd_first_more (x := i) (endf := endItem) hoi.1 hoi.2.2.symm hlast
+      have hB : (tsel :: pa) ++ (pi ++ pl) ≠ [] ∧
+          lastEnd ((tsel :: pa) ++ (pi ++ pl)) = endItem ((i :: is).getLast?.getD i) :=
+        ⟨by simp, by rw [lastEnd_append hbne]; exact hbe⟩
+      have hall : ts = (tsel :: pa) ++ (pi ++ pl) ++ ptr ++ pf ++ pw ++ pg ++ ph ++ r6 := by
+        rw [hts, ← htl, hpa, e1, e2, e3, e4, e5, e6]; simp
+      have hfirst : ∀ X : List Token, firstPos ((tsel :: pa) ++ (pi ++ pl) ++ X) = (hd ts).pos := by
+        intro X; rw [hts]; rfl
+      by_cases hcl : fr = none ∧ w = none ∧ g = none ∧ hv = none
+      · obtain ⟨rfl, rfl, rfl, rfl⟩ := hcl
+        simp only [OptOver] at hof how hog hoh
+        subst hof how hog hoh
+        refine ⟨(tsel :: pa) ++ (pi ++ pl), ptr, by rw [hall]; simp, ⟨hB.1, ?_, ?_⟩, ?_⟩
+        · have := hfirst []; simpa using this.symm
+        · simp only [endSelect]; exact hB.2.symm
+        · cases tr with
+          | false => exact Or.inl (htr0 rfl)
+          | true => obtain ⟨tc, htc⟩ := htr1 rfl; exact Or.inr ⟨tc, htc, rfl, rfl, rfl, rfl, rfl⟩
+      · -- some clause follows: a trailing comma (if any) is inside the range
+        have hptr : ptr = [] ∨ fr ≠ none := by
+          cases tr with
+          | false => exact Or.inl (htr0 rfl)
+          | true =>
+            rcases htrail rfl with h1 | ⟨h1, h2, h3, _⟩
+            · right; intro e; simp only at h1; rw [e] at h1; cases h1
+            · simp only at h1 h2 h3
+              cases hfr0 : fr with
+              | some x => right; simp
+              | none => exact absurd ⟨hfr0, h1, h2, h3⟩ hcl
+        have hB' : (tsel :: pa) ++ (pi ++ pl) ++ ptr ++ pf ≠ [] ∧
+            lastEnd ((tsel :: pa) ++ (pi ++ pl) ++ ptr ++ pf) =
+              optEnd fr endFrom (endItem ((i :: is).getLast?.getD i)) := by
+          rcases hptr with hp0 | hfn
+          · subst hp0
+            simpa using lastEnd_opt hB.1 hB.2 hof
+          · cases fr with
+            | none => exact absurd rfl hfn
+            | some v =>
+              simp only [OptOver] at hof
+              exact ⟨by simp, by rw [lastEnd_append hof.1]; exact hof.2.2.symm⟩
+        have h1 := lastEnd_opt hB'.1 hB'.2 how
+        have h2 := lastEnd_opt h1.1 h1.2 hog
+        have h3 := lastEnd_opt h2.1 h2.2 hoh
+        refine ⟨(tsel :: pa) ++ (pi ++ pl) ++ ptr ++ pf ++ pw ++ pg ++ ph, [], by rw [hall]; simp,
+          ⟨h3.1, ?_, ?_⟩, Or.inl rfl⟩
+        · have := hfirst (ptr ++ pf ++ pw ++ pg ++ ph)
+          simp only [List.append_assoc] at this ⊢
+          exact this.symm
+        · rw [h3.2]
+          simp only [endSelect]
+          cases hv <;> cases g <;> cases w <;> cases fr <;> rfl
+  · cases h
+
+/-- `parseQueryStatement`: the QueryStatement (= its QueryExpr: a Select, or a Query with ORDER BY / LIMIT) lies over
+`run`; `tail` is empty or the trailing comma of a SELECT that ends the statement -/
+theorem parseQueryStatement_over {len f : Nat} {ts rest : List Token} {q : QueryStatement} (hT : TokensOK len ts)
+    (h : parseQueryStatement f ts = .ok (q, rest)) :
+    ∃ run tail, ts = run ++ tail ++ rest ∧ Over (posQ q) (endQ q) run ∧ (tail = [] ∨ ∃ tc, tail = [tc]) ∧
+      ∃ srun stail, Over (selectOf q.query).select (endSelect (selectOf q.query)) srun ∧ (∃ b, run ++ tail = srun ++ stail ++ b) := by
+  unfold parseQueryStatement at h
+  split at h
+  · cases h
+  · obtain ⟨⟨qe, r0⟩, hqe, hk⟩ := Res.bind_eq_ok.1 h
+    cases hk
+    unfold parseQueryExpr at hqe
+    split at hqe
+    · cases hqe
+    · obtain ⟨⟨s, r⟩, hs, hsuf⟩ := Res.bind_eq_ok.1 hqe
+      have hs' : parseSelect f ts = .ok (s, r) := by
+        unfold parseSimpleQueryExpr at hs
+        split at hs
+        · cases hs
+        · cases hs
+        · exact hs
+        · cases hs
+      obtain ⟨srun, stail, e0, hos, htail⟩ := parseSelect_over hT hs'
+      try simp only at hsuf
+      split at hsuf
+      · cases hsuf
+      · cases hsuf
+      · unfold parseQueryExprSuffix at hsuf
+        obtain ⟨⟨o, r1⟩, ho, h2⟩ := Res.bind_eq_ok.1 hsuf
+        obtain ⟨⟨l, r2⟩, hl, h3⟩ := Res.bind_eq_ok.1 h2
+        try simp only at ho hl h3
+        have hTr : TokensOK len r := by rw [e0] at hT; exact hT.suffix
+        obtain ⟨po, e1, hoo⟩ := optOrder_over hTr ho
+        have hT1 : TokensOK len r1 := by rw [e1] at hTr; exact hTr.suffix
+        obtain ⟨pl, e2, hol⟩ := optLimit_over hT1 hl
+        have hbase : srun ++ stail ≠ [] := by simp [hos.1]
+        have c1 := lastEnd_opt hbase rfl hoo
+        have c2 := lastEnd_opt c1.1 c1.2 hol
+        have hfp : ∀ X : List Token, firstPos (srun ++ X) = s.select := by
+          intro X; rw [firstPos_append hos.1]; exact hos.2.1.symm
+        split at h3
+        · cases h3
+        · cases h3
+        · cases o with
+          | none =>
+            cases l with
+            | none =>
+              simp only at h3
+              cases h3
+              simp only [OptOver] at hoo hol
+              subst hoo hol
+              refine ⟨srun, stail, by rw [e0, e1, e2]; simp, hos, ?_, srun, stail, hos, [], by simp⟩
+              rcases htail with h | ⟨tc, h, _⟩
+              · exact Or.inl h
+              · exact Or.inr ⟨tc, h⟩
+            | some lv =>
+              simp only at h3
+              cases h3
+              refine ⟨srun ++ stail ++ po ++ pl, [], by rw [e0, e1, e2]; simp, ⟨c2.1, ?_, ?_⟩, Or.inl rfl,
+                srun, stail, hos, po ++ pl, by simp⟩
+              · have := hfp (stail ++ po ++ pl); simp only [List.append_assoc] at this ⊢; exact this.symm
+              · rw [c2.2]; rfl
+          | some ov =>
+            simp only at h3
+            cases h3
+            refine ⟨srun ++ stail ++ po ++ pl, [], by rw [e0, e1, e2]; simp, ⟨c2.1, ?_, ?_⟩, Or.inl rfl,
+              srun, stail, hos, po ++ pl, by simp⟩
+            · have := hfp (stail ++ po ++ pl); simp only [List.append_assoc] at this ⊢; exact this.symm
+            · rw [c2.2]; cases l <;> rfl
 
 end MF.Query
 
